@@ -1368,7 +1368,11 @@ def add_invariant_checks(cls: ClassT) -> None:
         # In those cases, we have to wrap __new__ instead of __init__.
         if init_func == object.__init__ and hasattr(cls, "__new__"):
             new_func = getattr(cls, "__new__")
-            setattr(cls, "__new__", _decorate_new_with_invariants(new_func))
+            new_wrapper = _decorate_new_with_invariants(new_func)
+
+            # See the note below about the method resolution order.
+            if new_wrapper is not new_func:
+                setattr(cls, "__new__", new_wrapper)
         else:
             wrapper = _decorate_with_invariants(func=init_func, is_init=True)
 
